@@ -21,7 +21,7 @@ RULE = ('seeded random pva: |lat|<=85, lon incl. the +-180 region, alt 0..20 km,
         'hand-written state of the existing test; distinct = generator parameters')
 ASSUMPTIONS = ['second order is decided by extracting the first-order coefficient of the residual (Richardson on rungs 1/4, 1/8, 1/16) '
                'and requiring it below 1e-5 of the linear term; log-log slopes are recorded as evidence only']
-REQUIRED_OBS = ['pva_labels_permuted', 'reused_model_and_pva_object', 'tiny_corrections', 'left_inverse', 'correct_ladder', 'perturb_correct_ladder', 'twoD_rows_zero', 'twoD_alt_vd_frozen',
+REQUIRED_OBS = ['table_form_compared', 'pva_labels_permuted', 'reused_model_and_pva_object', 'tiny_corrections', 'left_inverse', 'correct_ladder', 'perturb_correct_ladder', 'twoD_rows_zero', 'twoD_alt_vd_frozen',
                 'ladder_groups_above_floor']
 REQUIRED_CLASSES = {'all': ['generic3d', 'generic2d', 'steep3d', 'steep2d', 'south_west', 'slow']}
 EPS = np.finfo(float).eps
@@ -180,6 +180,22 @@ def run_case(case):
     if T_oi.shape != (9, n) or T_io.shape != (n, 9):
         fail('shape', f'T_oi {T_oi.shape} T_io {T_io.shape}')
         return dict(violations=out, obs=obs)
+    # the same map for a Trajectory (table) argument: row i of the stacked result is the matrix of row i (and the 2-D rows are zero there too)
+    others = [gen_pva(frng, cls)[list(pva.index)] for _ in range(3)]
+    table = pd.DataFrame([pva.values] + [o.values for o in others], columns=list(pva.index), index=pd.Index(np.arange(4) * 0.5, name='time'))
+    Tt = em.transform_to_output(table)
+    bump('table_form_compared')
+    if Tt.shape != (4, 9, n):
+        fail('table_form', f'transform_to_output(table of 4 rows) has shape {Tt.shape}')
+    else:
+        for i_, row_ in enumerate([pva] + others):
+            Ti = em.transform_to_output(row_)
+            if not np.allclose(Tt[i_], Ti, rtol=1e-12, atol=1e-12 * max(1.0, np.abs(Ti).max())):
+                fail('table_form', f'row {i_} of transform_to_output(table) differs from transform_to_output(that row) by {np.abs(Tt[i_] - Ti).max():.3e} '
+                     f'(row state {row_.values.tolist()})')
+                break
+        if not wa and np.abs(Tt[:, [2, 5], :]).max() > 1e-9 * max(1.0, np.abs(table[VEL].values).max()):
+            fail('twoD_rows', f'down / VD rows of the 2-D output transform of a TABLE are not zero: max {np.abs(Tt[:, [2, 5], :]).max():.3e}')
     kappa = np.linalg.cond(InsErrorModel(True).transform_to_output(pva))
     E = T_io @ T_oi - np.eye(n)
     bump('left_inverse')
